@@ -1,6 +1,7 @@
 """Bounded stand-in for C06: every fixture that opens is rewritten with meaning-preserving layout choices; run-time
 contract: the rewritten file is read as the same document (sheets/tables by name, cell types, values, formulas,
 formatted values)."""
+import hashlib
 import os
 import random
 import sys
@@ -11,7 +12,7 @@ sys.path.insert(0, os.path.dirname(os.path.dirname(os.path.abspath(__file__))))
 from bounded import common, docsnap, layout  # noqa: E402
 
 VARIANTS = ["lists-reversed", "lists-shuffled", "zip-reversed-stored", "zip-deflated", "package", "rechunk-1k",
-            "rechunk-random", "offsets-switched", "offsets-mixed", "empty-row-headers"]
+            "rechunk-random", "rechunk-one", "offsets-switched", "offsets-mixed", "empty-row-headers"]
 
 
 def build_variant(members, variant, out, seed):
@@ -27,6 +28,9 @@ def build_variant(members, variant, out, seed):
         layout.write_package(members, out)
     elif variant == "rechunk-1k":
         layout.write_zip([(n, layout.rechunk(d, 1024) if n.endswith(".iwa") else d) for n, d in members], out)
+    elif variant == "rechunk-one":
+        # one chunk per member: compressed chunks larger than 64 KiB exercise the whole 3-byte length field
+        layout.write_zip([(n, layout.rechunk(d, 1 << 30) if n.endswith(".iwa") else d) for n, d in members], out)
     elif variant == "rechunk-random":
         rnd = random.Random(seed)
         layout.write_zip([(n, layout.rechunk(d, 70000, rnd) if n.endswith(".iwa") else d) for n, d in members], out)
@@ -43,10 +47,31 @@ def build_variant(members, variant, out, seed):
     return 1
 
 
+def built_large(td):
+    """a document the library writes itself whose table archive is larger than one 64 KiB chunk (700 x 8 text cells)"""
+    import warnings
+    from numbers_parser import Document
+    with warnings.catch_warnings():
+        warnings.simplefilter("ignore")
+        doc = Document(num_rows=700, num_cols=8)
+        t = doc.sheets[0].tables[0]
+        for r in range(700):
+            for c in range(8):
+                t.write(r, c, hashlib.sha256(f"{r}.{c}".encode()).hexdigest()[: 24 + (r + c) % 40])  # text snappy cannot shrink much
+        p = os.path.join(td, "large.numbers")
+        doc.save(p)
+    return p
+
+
 def run_case(case):
+    if case["path"] == "built:large":
+        with tempfile.TemporaryDirectory() as td0:
+            return run_case(dict(case, path=built_large(td0), name="built:large (700x8 text table)"))
     path, variant = case["path"], case["variant"]
     doc, why = docsnap.open_quiet(path)
     if doc is None:
+        if case.get("name"):  # a document the library has just written itself
+            return {"detail": f"{case['name']}: the library cannot read the document it has just written (layout: its own 64 KiB chunking)", "variant": variant}
         return {"ok": True, "count": 1, "distinct": 0}
     base = docsnap.snapshot(doc)
     members = layout.read_members(path)
@@ -57,11 +82,11 @@ def run_case(case):
             return {"ok": True, "count": 1, "distinct": 0}  # the variant does not differ from the original here
         doc2, why2 = docsnap.open_quiet(out)
         if doc2 is None:
-            return {"detail": f"{os.path.basename(path)} [{variant}]: the rewritten container cannot be opened", "variant": variant}
+            return {"detail": f"{case.get('name') or os.path.basename(path)} [{variant}]: the rewritten container cannot be opened", "variant": variant}
         snap2 = docsnap.snapshot(doc2)
     d = docsnap.diff(base, snap2)
     if d:
-        return {"detail": f"{os.path.basename(path)} [{variant}]: read differently: {d[:3]}", "variant": variant}
+        return {"detail": f"{case.get('name') or os.path.basename(path)} [{variant}]: read differently: {d[:3]}", "variant": variant}
     return {"ok": True, "count": 1}
 
 
@@ -76,6 +101,7 @@ def main():
     if a.fixtures:
         fs = fs[: a.fixtures]
     cases = [{"path": f, "variant": v, "seed": a.seed} for f in fs for v in VARIANTS]
+    cases += [{"path": "built:large", "variant": v, "seed": a.seed} for v in ("rechunk-one", "rechunk-1k", "rechunk-random", "package", "zip-reversed-stored")]
     return common.run(cases, run_case)
 
 
